@@ -35,18 +35,38 @@ def check_binarizer_pairing(ctx, F, rule):
     prog = ctx.prog
     fb = prog.method("_ThompsonSampling", "_get_binary_rewards")
     ctx.saw_fn(fb)
-    gens = [g for g in ast.walk(fb.node) if isinstance(g, ast.GeneratorExp)]
+    gens = [g for g in ast.walk(fb.node) if isinstance(g, (ast.GeneratorExp, ast.ListComp))]
     ok = False
-    if gens:
-        g = gens[0]
-        tgt = ast.unparse(g.generators[0].target)
-        it = ast.unparse(g.generators[0].iter)
-        call = g.elt
-        if isinstance(g.generators[0].target, ast.Tuple) and it == "enumerate(rewards)" and \
-                isinstance(call, ast.Call):
-            idx, val = [ast.unparse(e) for e in g.generators[0].target.elts]
-            ok = [ast.unparse(a) for a in call.args] == ["decisions[%s]" % idx, val] and \
-                ast.unparse(call.func) == "self.binarizer"
+    for g in gens:
+        # form A: one pass over the rows; every spelling of the row loop binds names to <array>[I]
+        if len(g.generators) != 1 or g.generators[0].ifs or not isinstance(g.elt, ast.Call) or \
+                ast.unparse(g.elt.func) != "self.binarizer" or g.elt.keywords or len(g.elt.args) != 2:
+            continue
+        tg, it = g.generators[0].target, g.generators[0].iter
+        bind = {}
+        its = " ".join(ast.unparse(it).split())
+        names = [e.id if isinstance(e, ast.Name) else None for e in tg.elts] if isinstance(tg, ast.Tuple) else None
+        if isinstance(it, ast.Call) and ast.unparse(it.func) == "enumerate" and len(it.args) == 1 and \
+                isinstance(it.args[0], ast.Name) and names and len(names) == 2 and all(names):
+            bind = {names[0]: "I", names[1]: "%s[I]" % it.args[0].id}
+        elif isinstance(it, ast.Call) and ast.unparse(it.func) == "zip" and names and len(names) == len(it.args) \
+                and all(names) and all(isinstance(a, ast.Name) for a in it.args):
+            bind = {n: "%s[I]" % a.id for n, a in zip(names, it.args)}
+        elif its in ("range(len(rewards))", "range(len(decisions))", "range(rewards.size)", "range(decisions.size)",
+                     "range(rewards.shape[0])", "range(decisions.shape[0])") and isinstance(tg, ast.Name):
+            bind = {tg.id: "I"}
+        if not bind:
+            continue
+
+        def sub(a):
+            import copy
+
+            class R(ast.NodeTransformer):
+                def visit_Name(self, n):
+                    return ast.parse(bind[n.id], mode="eval").body if n.id in bind else n
+            return " ".join(ast.unparse(R().visit(copy.deepcopy(a))).split())
+        if [sub(a) for a in g.elt.args] == ["decisions[I]", "rewards[I]"]:
+            ok = True
     if not ok:
         # form B: arm by arm through one mask:  for a in np.unique(decisions): m = decisions == a;
         #                                        out[m] = [self.binarizer(a, v) for v in rewards[m]]
